@@ -154,7 +154,7 @@ Cases == IF Side = "req" THEN { [side |-> "req", rm |-> "-", s |-> s] : s \in Re
 Expected(c) == AbsOut(c.side, c.rm, c.s)
 CaseRec(c) == LET E == Expected(c) IN
     [side |-> c.side, rm |-> c.rm, lex |-> c.s,
-     wantMsgs |-> Len(MsgsOf(E)), wantEnd |-> LastT(E), complete |-> (E # <<>>)]
+     wantMsgs |-> Len(MsgsOf(E)) + (IF LastT(E) = "msgopt" THEN 1 ELSE 0), wantEnd |-> LastT(E), complete |-> (E # <<>>)]
 
 \* ================================================================================================ Impl
 VARIABLES c,       \* the case
@@ -340,13 +340,16 @@ Spec == Init /\ [][Next]_vars
 
 \* ============================================================================================ the property
 Exp == Expected(c)
-Need == IF LastT(Exp) \in {"any", "stall"} THEN Len(Exp) - 1 ELSE Len(Exp)
-Same(a, b) == a.t = b.t /\ a.start = b.start /\ a.hdrs = b.hdrs /\ a.body = b.body
+Need == IF LastT(Exp) \in {"any", "stall", "msgopt"} THEN Len(Exp) - 1 ELSE Len(Exp)
+SameM(a, b) == a.start = b.start /\ a.hdrs = b.hdrs /\ a.body = b.body
+Same(a, b) == a.t = b.t /\ SameM(a, b)
 \* whatever has been handed over so far is exactly what was encoded, in every state of every segmentation
 Exact == \A k \in 1..Len(out) :
             IF k <= Need THEN Same(out[k], Exp[k])
             ELSE \/ LastT(Exp) = "any"
                  \/ LastT(Exp) = "stall" /\ k = Len(Exp) /\ out[k].t = "reject"
+                 \/ LastT(Exp) = "msgopt" /\ k = Len(Exp) /\ (out[k].t = "reject" \/ (out[k].t = "msg" /\ SameM(out[k], Exp[k])))
+                 \/ LastT(Exp) = "msgopt" /\ k > Len(Exp) /\ out[Len(Exp)].t = "msg"
 Quiescent == \/ arr = 2 * LenS /\ pc \in {"idle", "done"}
              \/ c.side = "resp" /\ (closed \/ pc = "done")
 \* ... and once the whole stream has arrived nothing is missing (with Exact: independent of the cuts), invalid
